@@ -49,6 +49,7 @@ CHECK_DEADLOCK FALSE
 
 C_EXPR = "@@\nvar x expression\n@@\n-old(x)\n+new(x)\n"
 C_SPREAD = "@@\nvar xs expression\n@@\n-spread(..., xs)\n+spread(..., xs...)\n"      # a token that was absent appears
+C_EXPR_IMP = "@@\nvar x expression\n@@\n+import \"context\"\n\n-old(x)\n+new(context.TODO(), x)\n"      # ... and adds the file's first import
 C_STMT = "@@\n@@\n anchor()\n-drop()\n"
 C_SIG = "@@\nvar f identifier\n@@\n-func f(marker int) {\n+func f(marker int, extra string) {\n   ...\n }\n"
 C_KIND = "@@\nvar f identifier\n@@\n-func f(marker int) {\n+var f = func(marker int) {\n   ...\n }\n"
@@ -99,7 +100,7 @@ def render_decl(s, n, spread=False):
     return out
 
 
-def render(f, rng, spread=False):
+def render(f, rng, spread=False, addimp=False):
     h = f["hdr"]
     out = []
     if h["build"] == "tag":
@@ -115,7 +116,7 @@ def render(f, rng, spread=False):
     touches = {(s["kind"], s["touch"]) for s in f["decls"]}
     changes = []
     if any(t == "expr" for _, t in touches):
-        changes.append(C_EXPR)
+        changes.append(C_EXPR_IMP if addimp else C_EXPR)
     if spread and ("func", "expr") in touches:
         changes.append(C_SPREAD)
     if any(t == "stmt" for _, t in touches):
@@ -167,6 +168,10 @@ def run(ctx):
     for i, f in enumerate(files):
         src, patch = render(f, ctx.rng)
         cases.append(dict(id="gen-%d" % i, src=src, patch=patch, file=f))
+        if any(d["touch"] == "expr" for d in f["decls"]):
+            # the same file with a change that also adds the first import of the file
+            src, patch = render(f, ctx.rng, addimp=True)
+            cases.append(dict(id="gen-%d-addimp" % i, src=src, patch=patch, file=f))
         if any(d["kind"] == "func" and d["touch"] == "expr" for d in f["decls"]):
             # the same file with expression sites that gain a token which was absent ('rest' -> 'rest...')
             src, patch = render(f, ctx.rng, spread=True)
@@ -209,7 +214,15 @@ def kf_misaligned(c, rec, bad):
     return c["id"] == "corpus:c5.go:p_imp_first.patch" and set(bad) <= {"UntouchedKeepsComments"}
 
 
-KF = {"package-trailing-comment-dropped": kf_pkgtrail, "untouched-declaration-misaligned-after-first-import": kf_misaligned}
+def kf_first_import(c, rec, bad):
+    # the first import of the file is added below a package clause that carries a trailing comment: the doc comment
+    # of the untouched first declaration ends up on the import line
+    f = c.get("file")
+    return bool(f) and c["id"].endswith("-addimp") and set(bad) <= {"UntouchedKeepsComments"} and f["hdr"]["pkgtrail"] == "eol" and \
+        f["decls"][0]["touch"] == "none" and f["decls"][0]["doc"] != "none"
+
+
+KF = {"package-trailing-comment-dropped": kf_pkgtrail, "first-import-takes-doc-comment-of-first-declaration": kf_first_import, "untouched-declaration-misaligned-after-first-import": kf_misaligned}
 
 
 def execute(ctx, cases):
